@@ -73,6 +73,53 @@ theorem mem_sortBy {α} (key : α → String) (l : List α) (y : α) (h : y ∈ 
   · simpa using h
   · simp at h
 
+theorem dictInsert_append {β} (e : (Term × Term) × (β × β)) : ∀ (acc : List ((Term × Term) × (β × β))),
+    (∀ x ∈ acc, x.1.1 ≠ e.1.1) → dictInsert e acc = acc ++ [e]
+  | [], _ => rfl
+  | x :: xs, h => by
+    have hx : (x.1.1 == e.1.1) = false := by simpa using h x (by simp)
+    simp only [dictInsert, hx, Bool.false_eq_true, if_false, List.cons_append,
+      dictInsert_append e xs (fun y hy => h y (List.mem_cons_of_mem _ hy))]
+
+/-- with pairwise different keys the dictionary of assignments is the list of assignments -/
+theorem dictPairs_id {β} (l : List ((Term × Term) × (β × β))) (h : l.Pairwise (fun a b => a.1.1 ≠ b.1.1)) :
+    dictPairs l = l := by
+  unfold dictPairs
+  have : ∀ (l acc : List ((Term × Term) × (β × β))), (acc ++ l).Pairwise (fun a b => a.1.1 ≠ b.1.1) →
+      List.foldl (fun acc e => dictInsert e acc) acc l = acc ++ l := by
+    intro l
+    induction l with
+    | nil => intro acc _; simp
+    | cons e l ih =>
+      intro acc hp
+      simp only [List.foldl_cons]
+      have hne : ∀ x ∈ acc, x.1.1 ≠ e.1.1 := by
+        intro x hx
+        exact (List.pairwise_append.1 hp).2.2 x hx e (by simp)
+      rw [dictInsert_append e acc hne, ih (acc ++ [e]) (by simpa using hp)]
+      simp
+  simpa using this l [] (by simpa using h)
+
+theorem termsDistinct_spec : ∀ (l : List Term), termsDistinct l = true → l.Pairwise (· ≠ ·)
+  | [], _ => List.Pairwise.nil
+  | x :: xs, h => by
+    simp only [termsDistinct, Bool.and_eq_true, Bool.not_eq_true'] at h
+    refine List.Pairwise.cons ?_ (termsDistinct_spec xs h.2)
+    intro y hy e
+    subst e
+    have := h.1
+    simp only [List.contains_eq_mem, decide_eq_false_iff_not] at this
+    exact this hy
+
+/-- the zipped assignments of an array value with pairwise different keys -/
+theorem dictPairs_zip {β} (g : Term → β) (rest : List Term) (h : termsDistinct ((pairsOf rest).map (·.1)) = true) :
+    dictPairs ((pairsOf rest).zip (pairsOf (rest.map g))) = (pairsOf rest).zip (pairsOf (rest.map g)) := by
+  apply dictPairs_id
+  rw [pairsOf_map, zip_map_self, List.pairwise_map]
+  have := termsDistinct_spec _ h
+  rw [List.pairwise_map] at this
+  exact this
+
 section
 variable (sp : Spell) (hsp : SpellStd sp) (env : SEnv) (sc : List Binding) (hsc : ThFree sc) (srt : Bool)
   (toS : Term → Sexp) (scope0 : List Sym)
@@ -114,16 +161,16 @@ theorem reads_arrayValue (p : Payload) (args : List Term) (τ : Ty)
       simp only [List.map_cons, List.cons.injEq] at hts
       obtain ⟨hd, hrest⟩ := hts
       simp only [nodeOK, Bool.and_eq_true] at hok
-      obtain ⟨hsidx, hse⟩ := hok
+      obtain ⟨hsidx, hse, hdist⟩ := hok
       have hdty := (hargs d (by simp)).1
       have hse' : SortOK env dT = true := by
         rw [hdty] at hse; simpa [hd] using hse
       -- the sorted assignments
       let S := if srt then sortBy (fun kv : Term × Term => hrStr kv.1) (pairsOf rest) else pairsOf rest
       have hS1 : (if srt then sortBy (fun e : (Term × Term) × (Sexp × Sexp) => hrStr e.1.1)
-          ((pairsOf rest).zip (pairsOf (rest.map toS))) else (pairsOf rest).zip (pairsOf (rest.map toS)))
+          (dictPairs ((pairsOf rest).zip (pairsOf (rest.map toS)))) else (pairsOf rest).zip (pairsOf (rest.map toS)))
           = S.map (fun kv => (kv, (toS kv.1, toS kv.2))) := by
-        rw [pairsOf_map, zip_map_self]
+        rw [dictPairs_zip toS rest hdist, pairsOf_map, zip_map_self]
         cases srt
         · rfl
         · exact sortBy_map _ _ _ (fun _ => rfl) _
